@@ -158,6 +158,109 @@ def fresh_nothing_producers(model: Model) -> List[str]:
     return out
 
 
+def install_induction_hooks(it: Any, model: Model) -> None:
+    """Structural induction on the comparands: a re-entrant call of a comparison helper (one that is already on the
+    stack) compares two *parts* of the comparands; by the induction hypothesis it returns the RFC answer for them,
+    which is an unknown boolean here.  The call is recorded with its arguments."""
+    TRUE, FALSE = Const(True), Const(False)
+
+    def rec_hook(interp: Any, fi: Any, args: List[Any], kw: Any, node: Any) -> Any:
+        if fi.qualname in interp.active and len(args) == 2 and not kw:
+            calls = getattr(interp.ctx, "rec_calls", None)
+            if calls is None:
+                calls = interp.ctx.rec_calls = []  # type: ignore[attr-defined]
+            out = interp.ctx.choose(("rec-eq", len(calls)), [True, False])
+            calls.append((fi.qualname, args[0], args[1], out))
+            return TRUE if out else FALSE
+        return NotImplemented
+
+    for f in model.module("filter_expressions").functions.values():
+        if len(f.node.args.args) == 2 and f.qualname not in it.hooks:
+            it.hooks[f.qualname] = rec_hook
+    it.ctx.interp = it  # type: ignore[attr-defined]
+
+
+def inductive_world(run: Any, L: str, ls: Any, rs: Any) -> Tuple[Optional[str], Optional[str]]:
+    """For two arrays / two objects compared part by part: ('rfc_eq' | 'ne', None) = what the path has established
+    about the comparands (assuming recursive calls answer correctly), or (None, problem).  (None, None) = the path
+    shows no part-by-part comparison (host equality: the worlds of A1 apply).
+
+    arrays are equal iff they have the same length and equal elements at every position; objects are equal iff they
+    have the same names and equal values under every name (RFC 9535 2.3.5.2.2)."""
+    from ..absval import Ev
+    from ..absval import PyTuple
+    from ..absval import Source
+    from ..numeric import Lin
+
+    ctx = run.ctx
+    calls = list(getattr(ctx, "rec_calls", []) or [])
+
+    def events(evs: Any) -> Any:
+        for e in evs:
+            if isinstance(e, Ev):
+                yield e
+                if e.kind == "foreach":
+                    yield from events(e.body)
+
+    quants = [e for e in events(ctx.log) if e.kind == "quantifier"]
+    loops = [e for e in events(ctx.log) if e.kind == "foreach"]
+    it = getattr(ctx, "interp", None)
+    if it is None:
+        return None, None
+    la = Lin.var(it.host.len_var(("sym", ls.id), ls.label))
+    lb = Lin.var(it.host.len_var(("sym", rs.id), rs.label))
+    len_eq = ctx.oct.entails_le0(la - lb) and ctx.oct.entails_le0(lb - la)
+    len_ne = ctx.oct.entails_ge1(la - lb) or ctx.oct.entails_ge1(lb - la)
+    if len_ne:
+        ctx.induction_facts = "the comparands have different sizes"  # type: ignore[attr-defined]
+        return "ne", None
+    if not calls and not quants and not loops:
+        return None, None
+    if loops and not quants:
+        return None, "the comparands are walked by an explicit loop; only all(<pairwise comparison> for ...) is recognised"
+    if len(quants) != 1:
+        return None, f"{len(quants)} quantifiers over the comparands, expected one"
+    q = quants[0]
+    which, passed, t = q.info
+    if which != "all":
+        return None, "the parts are combined with any(), not all()"
+    if not passed:
+        return None, "some parts are skipped by a condition of the generator expression"
+    src = q.src
+    tgt = q.elem.target
+    if L == "list":
+        ok = isinstance(src, Source) and src.view == "zip" and isinstance(src.base, tuple) and len(src.base) == 2 and all(isinstance(b, Source) and b.view == "elems" and not b.order for b in src.base) and {id(src.base[0].base), id(src.base[1].base)} == {id(ls), id(rs)}
+        if not ok:
+            return None, f"the elements compared are drawn from {src!r}, expected zip(left, right) in full"
+        want_pair = {id(x) for x in tgt.items} if isinstance(tgt, PyTuple) else set()
+    else:
+        ok = isinstance(src, Source) and src.view == "items" and not src.order and (src.base is ls or src.base is rs)
+        if not ok:
+            return None, f"the members compared are drawn from {src!r}, expected the items of one comparand in full"
+        other = rs if src.base is ls else ls
+        key, val = tgt.items if isinstance(tgt, PyTuple) and len(tgt.items) == 2 else (None, None)
+        present = ctx.world.get(("haskey", other.id, it.host.key_desc(key)))
+        if present is None:
+            return None, "a member of one object is compared without testing that the other object has that name (a missing member is not a null member)"
+        if present is False:
+            ctx.induction_facts = "a name of one object is missing in the other (so the objects differ), whatever the part-by-part comparison then compares"  # type: ignore[attr-defined]
+            return "ne", None
+        want_pair = {id(val), id(it.host.member(other, key))}
+    if len(calls) != 1:
+        return None, f"{len(calls)} recursive comparisons per part, expected one"
+    _q, a, b, out = calls[0]
+    if {id(a), id(b)} != want_pair:
+        from ..harness import describe
+
+        return None, f"the recursive comparison is applied to ({describe(a)!r}, {describe(b)!r}), which are not the two parts at the same position / under the same name"
+    if not out:
+        ctx.induction_facts = "the two parts at one position / under one name differ"  # type: ignore[attr-defined]
+        return "ne", None
+    if not len_eq:
+        return None, "parts compare equal but the sizes of the two comparands are never compared (a prefix / a subset would compare equal)"
+    return "rfc_eq", None
+
+
 def witness(op: str, lp: Tuple[str, ...], rp: Tuple[str, ...], world: str) -> str:
     def side(p: Tuple[str, ...], name: str) -> Tuple[str, Optional[str]]:
         if p[0] == "nothing":
@@ -243,6 +346,7 @@ def check(model: Model, report: Report) -> None:
                         v_, s_ = mk(p, name)
                         return expr_stub(it, model, v_, name), s_
 
+                    install_induction_hooks(it, model)
                     le_, ls = operand(lp, "left")
                     re_, rs = operand(rp, "right")
                     it.ctx.operand_syms = (ls, rs)  # type: ignore[attr-defined]
@@ -265,6 +369,11 @@ def check(model: Model, report: Report) -> None:
                     ls, rs = getattr(run.ctx, "operand_syms", (None, None))
                     rel = rel_of(run.ctx, ls, rs) if (ls is not None and rs is not None) else None
                     deep = deep_of(run.ctx, ls, rs) if (ls is not None and rs is not None) else None
+                    if deep is None and L == R and L in ("list", "dict") and isinstance(ls, Sym) and isinstance(rs, Sym) and run.kind != "raise":
+                        deep, prob = inductive_world(run, L, ls, rs)
+                        if prob:
+                            bads.setdefault("part-by-part", (prob, "the RFC 9535 result for two " + ("arrays" if L == "list" else "objects"), run))
+                            continue
                     rels = [rel] if rel is not None else ["lt", "eq", "gt"]
                     deeps = [deep] if deep is not None else ["rfc_eq", "host_eq_only", "ne"]
                     if ls is None or rs is None:
@@ -293,7 +402,8 @@ def check(model: Model, report: Report) -> None:
                         "R06.1",
                         site,
                         f"{cell}@{world}",
-                        f"{op} on ({'/'.join(lp)}, {'/'.join(rp)}) {got}, RFC 9535 says {want}; {witness(op, lp, rp, world)}",
+                        f"{op} on ({'/'.join(lp)}, {'/'.join(rp)}) {got}, RFC 9535 says {want}; "
+                        + (f"on the path where {run.ctx.induction_facts} (comparands compared part by part; recursive calls assumed correct)" if getattr(run.ctx, "induction_facts", None) else witness(op, lp, rp, world)),
                         file=ev.file,
                         line=ev.line,
                         witness={"op": op, "left": lp, "right": rp, "world": world, "got": got, "expected": want,
